@@ -1,7 +1,19 @@
 import sys
 pid, wt = sys.argv[1], sys.argv[2]
 ROUND_E = len(sys.argv) > 3 and sys.argv[3] == 'e'
+ROUND_F = len(sys.argv) > 3 and sys.argv[3] == 'f'
 EXTRA = ''
+ROUND_F_TEXT = (' THIS ROUND: each change must be a REFACTORING GONE SUBTLY WRONG. Write each patch the way a maintainer writes a genuine, moderately sized clean-up '
+                '(10-60 changed lines): extract a helper from duplicated code, replace a hand-written loop by a standard algorithm or the reverse, restructure nested ifs into early returns, '
+                'hoist or cache a sub-expression, memoise a result or reuse a scratch buffer between calls, merge two near-identical overloads through a shared implementation, replace a macro by an alias/constexpr, '
+                'move validation into a shared validator, reorder definitions/initialisers, modernise casts/loops/smart pointers - and ALMOST all of the patch must be exactly behaviour-preserving. '
+                'Hidden inside is ONE subtle mistake of the kind such refactorings really introduce: the extracted helper is right for three of its four callers, the algorithm call has the wrong end iterator or '
+                'predicate for one edge, the cache key omits something the value depends on or one mutator forgets to invalidate it, the early return skips a side effect the old code performed, '
+                'the merged overload loses the one difference between the originals, the reordered initialiser reads a member that is not initialised yet, the scratch buffer keeps a stale part, '
+                'the moved validation now happens after a side effect. A reviewer skimming the diff should believe it is a pure refactoring. '
+                'Earlier rounds already used: memcmp equality, reciprocal division, upper_bound for lower_bound, triangle-only diagonal test, Identity memo returned as a view, H0 kept in the expectation-value buffer keyed on (x,irho), '
+                'scratch matrices in thread-local statics rewritten on the diagonal only, noexcept on an allocating operator, unaligned blocks filed in the cache, flushing small diagonal entries to zero - do not repeat those. '
+                'The library is built with assertions ENABLED (no -DNDEBUG): do not rely on NDEBUG.')
 if pid == 'C19':
     EXTRA = ("The code in question is the single header %s/include/SQuIDS/detail/Cache.h; when SQUIDS_THREAD_LOCAL is not defined the cache is shared by all threads (compile such a demo by including only <cstddef>, <cstdint> and <SQuIDS/detail/Cache.h>, instantiate squids::detail::cache<E,4> with your own payload type, build with `g++ -std=c++11 -pthread -I%s/include demo.cpp -o demo -latomic`). " % (wt, wt))
 if pid == 'C16':
@@ -29,4 +41,4 @@ Work through the three changes one after the other; after finishing change k, re
 
 Practical notes: when multiplying an expression object by a scalar in test code write `3.0` not `3` (a template quirk picks the wrong overload for int literals). The Makefile, settings.mk and include/SQuIDS/version.h in the worktree are untracked build files: leave them alone and keep them out of the patches.
 
-In your final message give, for each change, a 3-line summary: the change, what it needs to manifest, the observed demo results in both directions.""".format(wt=wt, pid=pid, extra=EXTRA, round_e=(' Earlier rounds of this exercise already produced the textbook slips (a flipped sign or wrong constant in one generated table entry, integer division inside sqrt, an off-by-one in the obvious loop, release-before-allocate, a static that lost thread_local, memcmp equality, reciprocal division, upper_bound instead of lower_bound at the last node, a diagonal shortcut that looks at one triangle only). Go beyond those: prefer interactions between two functions (a helper whose contract is subtly changed while one caller relies on the old contract), state that survives between calls, argument combinations at the edges of the validated ranges, overloads that are rarely used (rvalue-qualified operators, guarantee<> wrappers, buffer-taking variants, the move constructor), error paths, and configuration macros (SQUIDS_USE_STORAGE_CACHE, SQUIDS_THREAD_LOCAL, NDEBUG assertions).' if ROUND_E else '')))
+In your final message give, for each change, a 3-line summary: the change, what it needs to manifest, the observed demo results in both directions.""".format(wt=wt, pid=pid, extra=EXTRA, round_e=(' Earlier rounds of this exercise already produced the textbook slips (a flipped sign or wrong constant in one generated table entry, integer division inside sqrt, an off-by-one in the obvious loop, release-before-allocate, a static that lost thread_local, memcmp equality, reciprocal division, upper_bound instead of lower_bound at the last node, a diagonal shortcut that looks at one triangle only). Go beyond those: prefer interactions between two functions (a helper whose contract is subtly changed while one caller relies on the old contract), state that survives between calls, argument combinations at the edges of the validated ranges, overloads that are rarely used (rvalue-qualified operators, guarantee<> wrappers, buffer-taking variants, the move constructor), error paths, and configuration macros (SQUIDS_USE_STORAGE_CACHE, SQUIDS_THREAD_LOCAL, NDEBUG assertions).' if ROUND_E else (ROUND_F_TEXT if ROUND_F else ''))))
